@@ -58,12 +58,13 @@ CHECKS.update({
 })
 
 CHECKS["C14"] = dict(engine="AuthCache", design_ref="§5 C14, App. F.3",
-    technique="TLA+ AuthCache.tla (double-checked locking with expiry) model-checked by TLC for all interleavings; TLC behaviours and the "
-              "counterexample of the design without re-check forced step by step onto real threads calling the real caching provider; fetch logs judged "
+    technique="TLA+ AuthCache.tla (double-checked locking with expiry, failing provider) model-checked by TLC for all interleavings; TLC behaviours and the "
+              "counterexamples of three refuted designs (no re-check, cache write outside the lock, lock leaked when the provider raises) forced step by step onto real threads calling the real caching provider; fetch logs judged "
               "by AuthCacheJudge.tla; Requests.tla enumerates credential/override configurations, the real engine runs them in all phases and every "
               "received request is judged by RequestsTrace.tla (incl. provider kinds class / cache_by_key / requests-auth object and the per-key fetch budget)",
     text="Model checking + schedule replay + trace validation. The auth cache's fetch-once property is checked on the TLA+ model for 3 threads x 2 keys x all "
-         "interleavings (and TLC refutes the design without the in-lock re-check); simulated behaviours are forced onto the real CachingAuthProvider/"
+         "interleavings incl. a provider that raises (and TLC refutes the designs without the in-lock re-check, with the write outside the lock, and with the lock leaked on the "
+         "error path; AuthCacheKeyed.tla proves the lock-per-key design with atomic lock creation and refutes the check-then-act one); simulated behaviours are forced onto the real CachingAuthProvider/"
          "KeyedCachingAuthProvider through hook points with a model-driven clock and the recorded fetch log must equal the model's; free-running thread "
          "storms are judged too. For presence/precedence, TLC enumerates carrier configurations (--header, --auth, --set-query/-header/-cookie/-path, auth "
          "provider at schema/global scope) x declared same-named parameters; the real engine runs examples, coverage, fuzzing, stateful and link-derived "
